@@ -54,12 +54,13 @@ ModeOK(c, layers) ==
         /\ IF c = 1 THEN ValAt(hdr, 1, 2, 0) = layers - 1 /\ ValAt(hdr, 3, 6, 0) = nd - 1
            ELSE ValAt(hdr, 1, 5, 0) = layers - 1 /\ ValAt(hdr, 6, 11, 0) = nd - 1
         /\ Len(ModeBits(c, layers, nd)) = 4 * ModeLen(c)
-Pairs(m) == LET n == (2^m) - 1 IN
-  IF m <= 8 \/ (Deep /\ m = 10) THEN (1..n) \X (1..n)
-  ELSE (1..n) \X ({1, 2, 3, n, n-1, (n+1) \div 2} \cup {((k*k*7) % n) + 1 : k \in 1..(IF Deep THEN 60 ELSE 12)})
+\* second factors paired with every first factor: all of them for the small fields (thorough: also GF(1024)), samples else
+Seconds(m) == LET n == (2^m) - 1 IN
+  IF m <= 8 \/ (Deep /\ m = 10) THEN 1..n
+  ELSE {1, 2, 3, n, n-1, (n+1) \div 2} \cup {((k*k*7) % n) + 1 : k \in 1..(IF Deep THEN 60 ELSE 12)}
 FieldOK(m) == LET f == FieldFor(m) IN
   /\ Cardinality({f.ex[i] : i \in 1..f.n}) = f.n /\ f.ex[1] = 1 /\ f.ex[2] = 2
-  /\ \A p \in Pairs(m) : Mul(f, p[1], p[2]) = SlowMul(p[1], p[2], m, 0)
+  /\ \A a \in 1..f.n : \A b \in Seconds(m) : Mul(f, a, b) = SlowMul(a, b, m, 0)
 RsOK(ws, k, r) == LET f == FieldFor(ws)
                       data == [i \in 1..k |-> ((i * i * 29) + (7 * i) + r) % (2^ws)]
                       cw == CheckWords(f, data, k + r)
